@@ -136,8 +136,8 @@ func FixTiers() {
 		if n == 0 {
 			n = 1
 		}
-		t.NShared = n * t.Rounds
-		t.NRecycle = n * t.Rounds
+		t.NShared = n * 3 * t.Rounds // the shared message is a different seeded variant of the sample in every round
+		t.NRecycle = n * 2 * t.Rounds
 		Tiers[name] = t
 	}
 }
